@@ -1031,7 +1031,20 @@ const KEY_BYTES: std::ops::RangeFrom<usize> = 64..;
 
 /// The identifier of a record.
 #[derive(Clone, Serialize, Deserialize, PartialEq, Eq, PartialOrd, Ord)]
+#[serde(try_from = "Bytes")]
 pub struct RecordIdentifier(Bytes);
+
+/// A record identifier must hold at least the namespace and author ids.
+impl TryFrom<Bytes> for RecordIdentifier {
+    type Error = &'static str;
+
+    fn try_from(bytes: Bytes) -> Result<Self, Self::Error> {
+        if bytes.len() < KEY_BYTES.start {
+            return Err("record identifier is shorter than namespace id + author id");
+        }
+        Ok(Self(bytes))
+    }
+}
 
 impl Default for RecordIdentifier {
     fn default() -> Self {
